@@ -25,16 +25,19 @@ Fixpoint veq (a b : val) {struct a} : option bool :=
   | VI x, VI y | VF x, VF y | VI x, VF y | VF x, VI y => Some (Z.eqb x y)
   | VS x, VS y => Some (str_eqb x y)
   | VM l, VM m =>
+      (* Map.Equals on two ListMaps: size check, then all entries, an error wins over false
+         (the recursive call is written veq v o for the structural recursion; the Go code calls
+         equal(o, v), which has the same outcome - the comparison is symmetric) *)
       if negb (Nat.eqb (length l) (length m)) then Some false else
-      (fix go (l : list (str * val)) : option bool :=
+      (fix go (l : list (str * val)) (eq : bool) : option bool :=
          match l with
-         | [] => Some true
+         | [] => Some eq
          | (k, v) :: r =>
              match assoc k m with
-             | Some o => match veq v o with Some true => go r | x => x end
-             | None => Some false
+             | Some o => match veq v o with None => None | Some b => go r (eq && b) end
+             | None => go r false
              end
-         end) l
+         end) l true
   | _, _ => None
   end.
 
@@ -223,10 +226,9 @@ Definition obool_eqb (a b : option bool) : bool :=
   | None, None => true
   | _, _ => false
   end.
-(* equality answers: exact when the order is determined; otherwise "true" must agree and a
-   non-true answer may be false or an error (which entry is met first decides) *)
-Definition eq_same (nd : bool) (a b : option bool) : bool :=
-  if nd then Bool.eqb (obool_eqb a (Some true)) (obool_eqb b (Some true)) else obool_eqb a b.
+(* equality answers: since Map.Equals visits all entries the outcome (true / false / error) does not
+   depend on the iteration order and is compared exactly on both sides *)
+Definition eq_same (nd : bool) (a b : option bool) : bool := obool_eqb a b.
 
 Definition oent_same (nd : bool) (a : option ent) (b : ent) : bool :=
   match a with Some x => ent_same nd x b | None => false end.
@@ -297,20 +299,19 @@ Fixpoint sorted_insert (kv : str * val) (l : ent) : ent :=
 Definition sort_ent (l : ent) : ent := fold_right sorted_insert [] l.
 
 (* decision of fm_equal plus the outcome when it does not hold (in list order) *)
-Fixpoint fm_equal_loop (a b : ent) : option bool :=
+Fixpoint fm_equal_loop (a b : ent) (eq : bool) : option bool :=
   match a with
-  | [] => Some true
+  | [] => Some eq
   | (k, v) :: r => match assoc k b with
                    | Some o => match veq o v with
                                | None => None
-                               | Some false => Some false
-                               | Some true => fm_equal_loop r b
+                               | Some x => fm_equal_loop r b (eq && x)
                                end
-                   | None => Some false
+                   | None => fm_equal_loop r b false
                    end
   end.
 Definition fm_equal_b (a b : ent) : option bool :=
-  if Nat.eqb (length a) (length b) then fm_equal_loop a b else Some false.
+  if Nat.eqb (length a) (length b) then fm_equal_loop a b true else Some false.
 
 Definition fm_view (e : senv val) (m : ent) : view := {|
   w_size := N.of_nat (length m);
